@@ -8,9 +8,9 @@ set_option linter.unusedSimpArgs false
 namespace ClairModel.Arena
 
 /-- What the invariant says about a task that reads through a private descriptor. -/
-theorem holder_facts {s : State} (h : Inv s) {t k r : Nat}
+theorem holder_facts' {s : State} (h : Inv s) {t k r : Nat}
     (ht : s.tasks[t]? = some (.holding k r) ∨ s.tasks[t]? = some (.opened k r)) :
-    (s.rc r).fileOpen = true ∧ 1 ≤ (s.rc r).count ∧ s.arena k = some r := by
+    (s.rc r).fileOpen = true ∧ 1 ≤ (s.rc r).count ∧ (s.arena k = some r ∨ s.detached r = true) := by
   obtain ⟨p, hp, hfile, hrc⟩ : ∃ p, s.tasks[t]? = some p ∧ p.usesFile = some r ∧ p.rcOf = some (k, r) := by
     rcases ht with ht | ht
     · exact ⟨_, ht, rfl, rfl⟩
@@ -26,6 +26,28 @@ theorem holder_facts {s : State} (h : Inv s) {t k r : Nat}
   have := h.cnt r
   simp only [refsOn] at this
   omega
+
+/-- The same for a file the arena was not Closed under: it is still the arena's entry. -/
+theorem holder_facts {s : State} (h : Inv s) {t k r : Nat}
+    (ht : s.tasks[t]? = some (.holding k r) ∨ s.tasks[t]? = some (.opened k r))
+    (hd : s.detached r = false) :
+    (s.rc r).fileOpen = true ∧ 1 ≤ (s.rc r).count ∧ s.arena k = some r := by
+  obtain ⟨ho, hc, ha⟩ := holder_facts' h ht
+  refine ⟨ho, hc, ?_⟩
+  rcases ha with ha | ha
+  · exact ha
+  · rw [hd] at ha; cases ha
+
+/-- Only `RemoteFetchArena.Close` detaches a file. -/
+theorem detached_step (s : State) (op : Op) (hop : op ≠ .aclose) : (step s op).1.detached = s.detached := by
+  have hdec : ∀ r, (dec true s r).1.detached = s.detached := by
+    intro r
+    simp only [dec]
+    split
+    · rfl
+    · split <;> rfl
+  cases op <;> simp only [step, stepG] <;> (try (exact absurd rfl hop)) <;>
+    (repeat' split) <;> (first | rfl | simp only [setTask, setPhase, hdec])
 
 theorem close_other_task (s : State) (t t' : Nat) (hne : t' ≠ t) :
     (step s (.close t)).1.tasks[t']? = s.tasks[t']? := by
@@ -77,9 +99,10 @@ theorem dec_hits (s : State) (r : Nat) : (dec true s r).1.hits = s.hits := by
 /-- One step: a holder other than the closing task keeps holding, and no request for its
     digest reaches the server. -/
 theorem held_step {s : State} (h : Inv s) {t k r : Nat} (ht : s.tasks[t]? = some (.holding k r))
-    (op : Op) (hop : op ≠ .close t) :
+    (hd : s.detached r = false)
+    (op : Op) (hop : op ≠ .close t) (hop' : op ≠ .aclose) :
     (step s op).1.tasks[t]? = some (.holding k r) ∧ (step s op).1.hits k = s.hits k := by
-  have harena : s.arena k = some r := (holder_facts h (Or.inl ht)).2.2
+  have harena : s.arena k = some r := (holder_facts h (Or.inl ht) hd).2.2
   have hlt : t < s.tasks.length := by
     rcases Nat.lt_or_ge t s.tasks.length with hl | hl
     · exact hl
@@ -239,19 +262,43 @@ theorem held_step {s : State} (h : Inv s) {t k r : Nat} (ht : s.tasks[t]? = some
       simp at hr
     · exact ⟨ht, by first | rfl | trivial⟩
   | query k' => exact ⟨ht, by first | rfl | trivial⟩
+  | aclose => exact absurd rfl hop'
+  | ftmpfail k' =>
+    simp only [step, stepG]
+    split
+    · split <;> exact ⟨ht, by first | rfl | trivial⟩
+    · exact ⟨ht, by first | rfl | trivial⟩
 
 theorem held_run : ∀ (ops : List Op) (s : State), Inv s → ∀ {t k r : Nat},
-    s.tasks[t]? = some (.holding k r) → (∀ op ∈ ops, op ≠ .close t) →
+    s.tasks[t]? = some (.holding k r) → s.detached r = false →
+    (∀ op ∈ ops, op ≠ .close t ∧ op ≠ .aclose) →
     (Sm.run step s ops).tasks[t]? = some (.holding k r) ∧ (Sm.run step s ops).hits k = s.hits k := by
   intro ops
   induction ops with
-  | nil => intro s _ t k r ht _; exact ⟨ht, rfl⟩
+  | nil => intro s _ t k r ht _ _; exact ⟨ht, rfl⟩
   | cons op ops ih =>
-    intro s h t k r ht hops
-    have h1 := held_step h ht op (hops op (List.mem_cons_self))
-    have := ih (step s op).1 (inv_step h op) h1.1 (fun o ho => hops o (List.mem_cons_of_mem _ ho))
+    intro s h t k r ht hd hops
+    have hop := hops op (List.mem_cons_self)
+    have h1 := held_step h ht hd op hop.1 hop.2
+    have hd' : (step s op).1.detached r = false := by rw [detached_step s op hop.2]; exact hd
+    have := ih (step s op).1 (inv_step h op) h1.1 hd' (fun o ho => hops o (List.mem_cons_of_mem _ ho))
     simp only [Sm.run_cons]
     exact ⟨this.1, by rw [this.2, h1.2]⟩
+
+/-- A history without `RemoteFetchArena.Close` detaches nothing. -/
+theorem no_aclose_no_detached (ops : List Op) (hn : ∀ op ∈ ops, op ≠ .aclose) (r : Nat) :
+    (Sm.run step init ops).detached r = false := by
+  have key : ∀ (ops : List Op) (s : State), (∀ op ∈ ops, op ≠ .aclose) →
+      (Sm.run step s ops).detached = s.detached := by
+    intro ops
+    induction ops with
+    | nil => intro s _; rfl
+    | cons op ops ih =>
+      intro s hn
+      simp only [Sm.run_cons]
+      rw [ih _ (fun o ho => hn o (List.mem_cons_of_mem _ ho)), detached_step s op (hn op List.mem_cons_self)]
+  rw [key ops init hn]
+  rfl
 
 /-! ### quiescence -/
 
@@ -267,22 +314,26 @@ theorem quiescent_facts {s : State} (h : Inv s) (hq : Quiescent s) (ho : s.orpha
       intro p hp
       rcases htasks p hp with rfl | rfl <;> simp [Pc.refOn]
     simp [this]
-  have harena : ∀ k, s.arena k = none := by
-    intro k
-    cases ha : s.arena k with
-    | none => rfl
-    | some r =>
-      rcases h.zeroIn k r ha (hcount r) with ⟨f, hf, _⟩ | hg | hor
-      · rw [hfl k] at hf; cases hf
+  have hclosed : ∀ r, (s.rc r).fileOpen = false := by
+    intro r
+    cases hb : (s.rc r).fileOpen with
+    | false => rfl
+    | true =>
+      have hlt : r < s.nrc := by
+        rcases Nat.lt_or_ge r s.nrc with hl | hl
+        · exact hl
+        · rw [h.fresh r hl] at hb; cases hb
+      rcases h.zeroIn r hlt hb (hcount r) with ⟨f, hf, _⟩ | hg | hor
+      · rw [hfl _] at hf; cases hf
       · rcases htasks _ hg with he | he <;> cases he
       · rw [ho] at hor; cases hor
-  refine ⟨harena, ?_, hcount⟩
-  intro r
-  cases hb : (s.rc r).fileOpen with
-  | false => rfl
-  | true =>
-    have := h.openIn r hb
-    rw [harena] at this
+  refine ⟨?_, hclosed, hcount⟩
+  intro k
+  cases ha : s.arena k with
+  | none => rfl
+  | some r =>
+    have := (h.arenaOk k r ha).2.2
+    rw [hclosed r] at this
     cases this
 
 /-- Without cancellations the leader of every flight is still waiting for it, so a flight
@@ -434,8 +485,9 @@ theorem leaderWaits_step {s : State} (h : LeaderWaits s) (op : Op) (hop : ∀ t,
     simp only [step, stepG]
     split
     · rename_i f0 hf0
-      have key : ∀ ph nrc' rc' arena', LeaderWaits { setPhase s k' f0 ph with nrc := nrc', rc := rc', arena := arena' } := by
-        intro ph nrc' rc' arena'
+      have key : ∀ ph nrc' rc' arena' de,
+          LeaderWaits { setPhase s k' f0 ph with nrc := nrc', rc := rc', arena := arena', deaths := de } := by
+        intro ph nrc' rc' arena' de
         refine ⟨?_, h.noOrphan⟩
         intro k f hf
         by_cases hk : k = k'
@@ -446,7 +498,7 @@ theorem leaderWaits_step {s : State} (h : LeaderWaits s) (op : Op) (hop : ∀ t,
         · simp only [setPhase, upd_other _ _ _ _ hk] at hf
           exact h.leader k f hf
       split
-      · split <;> exact key _ _ _ _
+      · split <;> exact key _ _ _ _ _
       · exact h
     · exact h
   | fend k' =>
@@ -537,6 +589,23 @@ theorem leaderWaits_step {s : State} (h : LeaderWaits s) (op : Op) (hop : ∀ t,
       · simp only [dec_orphans]; exact h.noOrphan
     · exact h
   | query k' => exact h
+  | aclose => exact ⟨h.leader, h.noOrphan⟩
+  | ftmpfail k' =>
+    simp only [step, stepG]
+    split
+    · rename_i f0 hf0
+      split
+      · refine ⟨?_, h.noOrphan⟩
+        intro k f hf
+        by_cases hk : k = k'
+        · subst hk
+          simp only [setPhase, upd_same, Option.some.injEq] at hf
+          subst hf
+          exact h.leader k f0 hf0
+        · simp only [setPhase, upd_other _ _ _ _ hk] at hf
+          exact h.leader k f hf
+      · exact h
+    · exact h
 
 theorem no_cancel_no_orphans (ops : List Op) (hnc : ∀ op ∈ ops, ∀ t, op ≠ .cancel t) :
     (Sm.run step init ops).orphans = [] := by
